@@ -433,6 +433,11 @@ def opsInvoke (i : Invoke) : List Op :=
   [Op.str i.externalIdLocation, boolOp i.autoforward, uintOp i.finalize] ++
   opsOptCommon i.content ++ opsParams i.params ++ opsStrList i.nameList
 
+/-- `if state.donedata.is_some() { write_done_data(..) }` -/
+def opsOptDoneData : Option DoneData → List Op
+  | some d => opsDoneData d
+  | none => []
+
 def TransitionType.ordinal : TransitionType → Nat
   | .internal => 0
   | .external => 1
@@ -474,10 +479,7 @@ def opsState (s : State) : List Op :=
   (if !s.invoke.isEmpty then opsList opsInvoke s.invoke else []) ++
   (if !s.history.isEmpty then opsIds s.history else []) ++
   (if !s.data.isEmpty then opsDataPairs s.data else []) ++
-  [uintOp s.parent] ++
-  (match s.donedata with
-   | some d => opsDoneData d
-   | none => [])
+  [uintOp s.parent] ++ opsOptDoneData s.donedata
 
 /-- `write_executable_content_send` -/
 def opsSend (s : Send) : List Op :=
